@@ -53,7 +53,7 @@ def model(draw, used):
     cols = []
     for c in ns:
         t = draw(st.sampled_from(sorted(COLS)))
-        cols.append({"name": c, "typ": t, "nullable": draw(st.booleans()), "default": draw(st.one_of(st.none(), st.just({"int": 5, "str": "x", "bool": True, "float": 0.5}[t]))), "fk": draw(st.integers(0, 24)) == 0})
+        cols.append({"name": c, "typ": t, "nullable": draw(st.booleans()), "default": draw(st.one_of(st.none(), st.just({"int": 5, "str": "x", "bool": True, "float": 0.5}[t]))), "fk": draw(st.integers(0, 24)) == 0, "nodoc": draw(st.integers(0, 3)) == 0})
     pk = draw(st.sampled_from(["explicit", "explicit", "explicit", "inferable", "inferable", "none"]))
     pk_name = None
     if pk == "explicit":
@@ -102,7 +102,8 @@ def model_src(m):
         args = [COLS[c["typ"]]]
         if c["fk"]:
             args.append('ForeignKey("other.id")')
-        args.append('doc="the %s"' % c["name"])
+        if not c.get("nodoc"):
+            args.append('doc="the %s"' % c["name"])  # `nodoc` columns are described nowhere unless the class docstring does
         if c.get("pk"):
             args.append("primary_key=True")
         if c["default"] is not None:
